@@ -64,7 +64,9 @@ var c18Scenarios = []c18Scenario{
 		},
 	},
 	{
-		find:        "find all at least 1 ((in 'a', 'b') = c) named lp",
+		// two statements: the library's list is statement-major over the files (all matches of the first statement in every file,
+		// then the second statement's)
+		find:        "find all at least 1 ((in 'a', 'b') = c) named lp\nfind all digit",
 		replace:     "replace all (at least 1 digit) = n with '<' n '>' matchNumber",
 		findNone:    "find all 'q' 'q' 'q'",
 		replaceNone: "replace all 'qqq' with ''",
